@@ -417,14 +417,14 @@ def rule_keystore(ctx) -> None:
     chk.decide(len(r) == 1 and norm(r[0].value) == "aes_ecb_encrypt(master_key, otfad_input)", "C09.keystore-constants", fn.qual, "aes_ecb_encrypt(master_key, otfad_input)", norm(r[0]) if r else "", "", A.loc(KEYSTORE, fn.node))
 
 
-def rule_kdf(ctx) -> None:
+def rule_kdf(ctx, P: str = "C09") -> None:
     chk = ctx.chk
     fn = ctx.func(KDF, "_get_key_derivation_data")
     fold = lambda e: ctx.prog.fold(e, fn.module)  # noqa: E731
     lay = bytelayout.Layout(fold, fn.node)
     res = lay.run(A.body_of(fn.node))
     if res is None:
-        raise AnalysisError("C09.kdf-layout: no return layout")
+        raise AnalysisError(f"{P}.kdf-layout: no return layout")
     res = bytelayout.merge_consts(res)
     got = [f.desc() for f in res]
     want = [
@@ -437,17 +437,17 @@ def rule_kdf(ctx) -> None:
         (4, "int", "big", "key_length"),
         (4, "int", "big", "iteration"),
     ]
-    chk.decide(got == want, "C09.kdf-layout", fn.qual, "32-byte derivation record: 12-byte LE constant | 8 zero | rights<<6 | mode 01/10 | 0 | key option 20/21 | BE key length | BE iteration",
+    chk.decide(got == want, f"{P}.kdf-layout", fn.qual, "32-byte derivation record: 12-byte LE constant | 8 zero | rights<<6 | mode 01/10 | 0 | key option 20/21 | BE key length | BE iteration",
                f"{got}", f"{want}", A.loc(KDF, fn.node))
-    chk.decide(bytelayout.total(res) == 32, "C09.kdf-layout", fn.qual + " size", "record is 32 bytes", f"{bytelayout.total(res)}", "32", A.loc(KDF, fn.node))
+    chk.decide(bytelayout.total(res) == 32, f"{P}.kdf-layout", fn.qual + " size", "record is 32 bytes", f"{bytelayout.total(res)}", "32", A.loc(KDF, fn.node))
     # guards
     gs = [norm(s.test) for s in A.body_of(fn.node) if isinstance(s, ast.If) and A.always_raises(s.body)]
-    chk.decide("kdk_access_rights not in [0, 1, 2, 3]" in gs and "key_length not in [128, 256]" in gs, "C09.kdf-guards", fn.qual, "rejects rights outside 0..3 and key lengths other than 128/256", f"{gs}", "", A.loc(KDF, fn.node))
+    chk.decide("kdk_access_rights not in [0, 1, 2, 3]" in gs and "key_length not in [128, 256]" in gs, f"{P}.kdf-guards", fn.qual, "rejects rights outside 0..3 and key lengths other than 128/256", f"{gs}", "", A.loc(KDF, fn.node))
     dk = ctx.func(KDF, "_derive_key")
     part = [c for c in A.calls_in(dk.node, "partial")]
     okp = bool(part) and norm(part[0].args[0]) == "_get_key_derivation_data" and all(k.arg == norm(k.value) for k in part[0].keywords) and \
         {k.arg for k in part[0].keywords} == {"derivation_constant", "kdk_access_rights", "mode", "key_length"}
-    chk.decide(okp, "C09.kdf-derive", dk.qual + " partial", "derivation data is bound to the caller's own parameters", norm(part[0])[:160] if part else "", "", A.loc(KDF, dk.node))
+    chk.decide(okp, f"{P}.kdf-derive", dk.qual + " partial", "derivation data is bound to the caller's own parameters", norm(part[0])[:160] if part else "", "", A.loc(KDF, dk.node))
     cm = [c for c in A.calls_in(dk.node, "cmac")]
     its = []
     for c in cm:
@@ -460,22 +460,22 @@ def rule_kdf(ctx) -> None:
         it = [kw.value for kw in d.keywords if kw.arg == "iteration"] if isinstance(d, ast.Call) else []
         its.append((norm(k), ctx.prog.fold(it[0], dk.module) if it else None))
     cond256 = any(isinstance(s, ast.If) and norm(s.test) == "key_length == 256" and any(isinstance(x, ast.AugAssign) and isinstance(x.op, ast.Add) and A.calls_in(x, "cmac") for x in s.body) for s in A.body_of(dk.node))
-    chk.decide(its == [("key", 1), ("key", 2)] and cond256, "C09.kdf-derive", dk.qual, "CMAC(key, data(i=1)) and, for 256-bit keys, || CMAC(key, data(i=2))", f"cmac calls {its}, 256-bit extension {cond256}", "", A.loc(KDF, dk.node))
+    chk.decide(its == [("key", 1), ("key", 2)] and cond256, f"{P}.kdf-derive", dk.qual, "CMAC(key, data(i=1)) and, for 256-bit keys, || CMAC(key, data(i=2))", f"cmac calls {its}, 256-bit extension {cond256}", "", A.loc(KDF, dk.node))
     for name, const, mode in (("derive_block_key", "block_number", "BLK"), ("derive_kdk", "timestamp", "KDK")):
         f2 = ctx.func(KDF, name)
         c = [x for x in A.calls_in(f2.node, "_derive_key")]
         d = call_desc(c[0])[1] if c else {}
         keyp = f2.params()[0]
         want2 = {"key": keyp, "derivation_constant": const, "kdk_access_rights": "kdk_access_rights", "key_length": "key_length", "mode": f"KeyDerivationMode.{mode}"}
-        chk.decide(d == want2, "C09.kdf-derive", f2.qual, f"_derive_key({want2})", f"{d}", f"{want2}", A.loc(KDF, f2.node))
+        chk.decide(d == want2, f"{P}.kdf-derive", f2.qual, f"_derive_key({want2})", f"{d}", f"{want2}", A.loc(KDF, f2.node))
     kd = ctx.cls(KDF, "KeyDerivator")
     f3 = ctx.own(KDF, "KeyDerivator", "get_block_key")
     r = A.returns_in(f3.node)
-    chk.decide(bool(r) and norm(r[0].value) == "derive_block_key(self.kdk, block_number, self.key_length, self.kdk_access_rights)", "C09.kdf-derive", f3.qual, "block key from the KDK, block number, key length, rights",
+    chk.decide(bool(r) and norm(r[0].value) == "derive_block_key(self.kdk, block_number, self.key_length, self.kdk_access_rights)", f"{P}.kdf-derive", f3.qual, "block key from the KDK, block number, key length, rights",
                norm(r[0]) if r else "", "", A.loc(KDF, f3.node))
     f4 = ctx.own(KDF, "KeyDerivator", "_derive_kdk")
     r = A.returns_in(f4.node)
-    chk.decide(bool(r) and norm(r[0].value) == "derive_kdk(self.pck, self.timestamp, self.key_length, self.kdk_access_rights)", "C09.kdf-derive", f4.qual, "KDK from PCK, timestamp, key length, rights",
+    chk.decide(bool(r) and norm(r[0].value) == "derive_kdk(self.pck, self.timestamp, self.key_length, self.kdk_access_rights)", f"{P}.kdf-derive", f4.qual, "KDK from PCK, timestamp, key length, rights",
                norm(r[0]) if r else "", "", A.loc(KDF, f4.node))
 
 
